@@ -96,6 +96,12 @@ class Builder:
             target = self.objs[h['o2']]
             target.relations[h['ri2'] - 1].add_child(f)
             f.parent = target
+        elif a == 'EditReown':
+            old, new = self.objs[h['o']], self.objs[h['o2']]
+            rel = old.relations[h['ri'] - 1]
+            old.relations.remove(rel)
+            rel.parent = new
+            new.add_relation(rel)
         elif a == 'EditImport':
             sub = Feature('Imported sub-model root')
             self.model.import_model(sub, self.model.root, [Constraint(c['name'], AST(build_node(c['ast'], nm))) for c in h['ctcs']])
